@@ -372,7 +372,7 @@ def write_evidence(module, tier, seed, merged, wall, violations, shards):
     }
     d = os.environ.get("VERIF_EVIDENCE_DIR") or os.path.join(VERIF, "evidence")
     os.makedirs(d, exist_ok=True)
-    tmp = os.path.join(d, module.PROPERTY + ".json.tmp")
+    tmp = os.path.join(d, "%s.json.tmp.%d" % (module.PROPERTY, os.getpid()))   # two runs of one property may overlap
     with open(tmp, "w") as f:
         json.dump(ev, f, indent=1, sort_keys=True, default=_json_default)
         f.write("\n")
